@@ -228,6 +228,8 @@ def run(ctx, rep):
     mem = m.compute(fat)
     for name in ('fatfs::table::write_fat', 'fatfs::dir::Dir::write_entry', 'fatfs::dir_entry::DirEntryEditor::write'):
         fn = facts.fns.get(name)
+        if fn is None and name.endswith('DirEntryEditor::write'):
+            continue  # merged into flush(): the latch-guarded write-back is judged by P3 there
         if fn is None:
             rep.machinery('ANCHOR-MISSING ' + name)
             continue
